@@ -155,6 +155,38 @@ def search(rep: C.Report, tier: str, broken):
                               {"eos": name, "vJ": h.vJ, "vm": float(vmj), "cs_minus": csj, "Tm": float(Tmj)}, finding_key="C06:CJ")
         except Exception as ex:  # noqa: BLE001
             rep.count("matchDeton at vJ raised " + type(ex).__name__)
+    # strongly supercooled transitions: a Jouguet wall reheats the plasma to more than twice Tn, and the low-T range ends below that
+    # temperature; the equation of state is analytic, so vJ (the Chapman-Jouguet point) must not depend on where the range ends
+    from WallGo.hydrodynamics import Hydrodynamics as _H
+    strong = [("twostep", 0.3), ("bag", 0.4)] + ([("twostep", 0.31), ("twostep", 0.33), ("bag", 0.45), ("bag", 0.5)] if tier == "thorough" or broken else [])
+    for kind, Tn_ in strong:
+        def mk(Tmax):
+            if kind == "twostep":
+                return models.twostep_eos(Tn=Tn_, Tmax=50.0 if Tmax is None else Tmax)
+            return models.BagEOS(ap=3.0, am=2.4, eps=0.2, Tn=Tn_, TmaxP=Tmax)
+        try:
+            hw = _H(mk(None), 10.0, 0.01, 1e-6, 1e-10)
+            _, _, _, TmJ = hw.matchDeton(hw.vJ * (1 + 1e-7) + 1e-9)
+        except Exception as ex:  # noqa: BLE001
+            rep.count("strongly supercooled reference raised " + type(ex).__name__)
+            continue
+        for f in (0.5, 0.97) if tier == "quick" and not broken else (0.2, 0.5, 0.8, 0.97, 1.2):
+            cutT = Tn_ + f * (float(TmJ) - Tn_)
+            e2 = mk(cutT)
+            rep.case(key=("strong-supercooling", kind, Tn_, f))
+            rep.count("strongly supercooled range cuts")
+            info = {"eos": f"{kind}:Tn={Tn_}", "TMaxLowT": cutT, "Tminus_at_vJ": float(TmJ), "vJ_wide_range": hw.vJ}
+            try:
+                h2 = _H(e2, 10.0, 0.01, 1e-6, 1e-10)
+                vpj, vmj, Tpj, Tmj = h2.matchDeton(h2.vJ * (1 + 1e-7) + 1e-9)
+                csj = math.sqrt(float(e2.csqLowT(Tmj)))
+            except Exception as ex:  # noqa: BLE001
+                rep.violation("no detonation exists at the advertised Jouguet velocity of a strongly supercooled transition with a short "
+                              "low-T range", dict(info, error=f"{type(ex).__name__}: {ex}"[:200]), finding_key="C06:CJ-strong")
+                continue
+            if abs(h2.vJ - hw.vJ) > 1e-6 or abs(vmj - csj) > 5e-3:
+                rep.violation("Jouguet velocity depends on where the tabulated low-T range ends (not the Chapman-Jouguet point)",
+                              dict(info, vJ=h2.vJ, vm=float(vmj), cs_minus=csj), finding_key="C06:CJ-strong")
     # phase-temperature ranges that cut the window short (bag/template EOS with artificial upper ranges).
     # The cuts are derived from the real matching: T-(v1) and T+(v2) for chosen v1, v2, so that each phase alone, both with the
     # high-T phase reached first, and both with the LOW-T phase reached first all occur.
